@@ -291,3 +291,91 @@ def modules(rng):
             expected.append("%s_base" % x)
     expected.append("main")
     return ["main.asm"], files, "modules", expected
+
+
+HYG_NAMES = ["x", "__x", "_x", "___x", "y", "__y", "v", "__v", "le", "__le", "sizeof", "a", "__a", "____a", "_", "__", "___"]
+
+
+def fn_hygiene(rng):
+    """user functions / macro rules whose bodies are asm blocks and whose parameter names collide, or nearly collide, once
+    the `__` hygiene prefix is applied (`x` / `__x` / `_x` / `___x`, names equal to builtins, the bare prefix itself), with
+    nested asm blocks substituting them again: the value picked for `{x}` must not depend on the order of a hash map"""
+    pool = rng.shuffle(HYG_NAMES)
+    base = rng.choice(["x", "y", "v", "a"])
+    pars = [base, "__" + base] + [p for p in pool if p not in (base, "__" + base)][:rng.range(0, 3)]
+    if rng.chance(0.3):
+        pars = [p for p in pars if p != "__" + base] + ["_" + base]
+    pars = rng.shuffle(pars)
+    out = ["#ruledef", "{", "    emit {v: u8} => v", "    emit2 {p: u8}, {q: u8} => p @ q"]
+    use = [p for p in pars if p not in ("_", "__", "___")] or [pars[0]]
+    plain = [p for p in use if not p.startswith("__")]
+    if plain and rng.chance(0.8):      # a parameter that itself starts with the prefix is not reachable from an asm block
+        use = plain
+    if rng.chance(0.5):
+        # a macro rule with the same colliding parameter names, expanding to the function or to emit
+        mp = [p for p in pars if p not in ("_", "__", "___", "le", "sizeof", "__le")][:3] or [base]
+        emitted = [p for p in mp if not p.startswith("__")] or mp
+        out.append("    mac %s => asm" % ", ".join("{%s: u8}" % p for p in mp))
+        out.append("    {")
+        for p in rng.shuffle(emitted if rng.chance(0.8) else mp):
+            out.append("        emit {%s}" % p)
+        if len(emitted) >= 2:
+            out.append("        emit2 {%s}, {%s}" % (emitted[0], emitted[-1]))
+        out.append("    }")
+    else:
+        mp = None
+    out.append("}")
+    body = rng.choice(["emit {%s}" % rng.choice(use), "emit2 {%s}, {%s}" % (rng.choice(use), rng.choice(use)),
+                       "emit {%s}\n    emit {%s}" % (rng.choice(use), rng.choice(use))])
+    out.append("#fn pick(%s) => asm { %s }" % (", ".join(pars), body) if "\n" not in body else
+               "#fn pick(%s) => asm\n{\n    %s\n}" % (", ".join(pars), body))
+    if rng.chance(0.5):
+        out.append("#fn outer(%s) => pick(%s) @ asm { emit {%s} }" % (", ".join(pars), ", ".join(rng.shuffle(pars)), rng.choice(use)))
+        callee = rng.choice(["pick", "outer"])
+    else:
+        callee = "pick"
+    vals = rng.shuffle([0x11, 0x22, 0x33, 0x44, 0x55, 0x66, 0x77])
+    for _ in range(rng.range(1, 3)):
+        out.append("#d %s(%s)" % (callee, ", ".join("0x%02x" % vals[i % len(vals)] for i in range(len(pars)))))
+    if mp:
+        out.append("mac %s" % ", ".join("0x%02x" % vals[(i + 2) % len(vals)] for i in range(len(mp))))
+    out.append("#d 0xff")
+    return ["main.asm"], {"main.asm": ("\n".join(out) + "\n").encode()}, "fn-hygiene"
+
+
+def multi_fault(rng):
+    """programs with SEVERAL offending things of one kind, where a diagnostic may name 'the first' of them: duplicate
+    symbols, unresolved includes, unknown symbols in one expression, failing asserts, wrong argument counts, unknown
+    instructions, several of them inside one asm block"""
+    names = pick_names(rng, 6)
+    kind = rng.below(7)
+    out = ["#ruledef", "{", "    ld {x: u8} => 0x10 @ x", "    two {a: u8}, {b: u8} => 0x20 @ a @ b", "    blk {a: u8}, {b: u8} => asm", "    {",
+           "        ld {a}", "        ld {b}", "        ld {nosuch1} + {nosuch2}", "    }" if kind == 6 else "    }", "}"]
+    if kind != 6:
+        out.remove("        ld {nosuch1} + {nosuch2}")
+    files = {}
+    if kind == 0:       # several duplicates
+        for n in names[:3]:
+            out.append("%s:" % n)
+        for n in rng.shuffle(names[:3]):
+            out.append("%s:" % n)
+        for n in rng.shuffle(names[:3]):
+            out.append("%s = 1" % n)
+    elif kind == 1:     # several unresolved includes
+        for n in rng.shuffle(names)[:rng.range(2, 5)]:
+            out.append('#include "missing_%s.asm"' % n)
+    elif kind == 2:     # several unknown symbols in one expression / on several lines
+        out.append("#d8 %s" % " + ".join(names[:rng.range(2, 5)]))
+        out.append("two %s, %s" % (names[4], names[5]))
+    elif kind == 3:     # several failing asserts
+        for i in range(rng.range(2, 4)):
+            out.append("#assert %d == %d" % (i, i + 1))
+    elif kind == 4:     # wrong argument counts / unknown functions
+        out.append("#fn f(a, b) => a + b")
+        out.append("#d8 f(1) + f(1, 2, 3) + g(1) + h(2)")
+    elif kind == 5:     # several unknown instructions and bad arguments
+        out += ["foo 1", "bar 2", "ld 300", "ld -1", "two 300, 400"]
+    else:               # unknown parameters inside an asm block
+        out += ["blk 1, 2", "blk 3, 4"]
+    files["main.asm"] = ("\n".join(out) + "\n").encode()
+    return ["main.asm"], files, "multi-fault/%d" % kind
